@@ -3,6 +3,7 @@ C03 — the HTTP/2 fingerprint header reflects the frames the client sent.
 Model: FpVerif/Model/H2Fp.lean (capture blocks of processFrame + Marshal). Spec: FpVerif/Spec/H2Fp.lean.
 -/
 import FpVerif.Lemmas.H2Fp
+import FpVerif.Properties.C05
 import FpVerif.Gen.H2Fp
 set_option linter.unusedSimpArgs false
 namespace Fp.C03
@@ -144,5 +145,17 @@ example :
   refine ⟨?_, ?_, by decide⟩
   · intro s inc hm; simp at hm; omega
   · decide
+
+/-- PLUMBING: whatever injector set is configured (default or custom, any order, any outcome of the other injectors)
+and whatever the request, the value computed by the `X-HTTP2-Fingerprint` injector is what the backend receives under that
+name, exactly once (corollary of `Fp.C05.delivered` on the model of `rewriteFunc`, which the `rw` stream ties to the code). -/
+theorem header_delivered (c : Proxy.Cfg) (i : Proxy.InReq) (j : Proxy.Inj) (hj : j ∈ c.injectors)
+    (hn : j.name = strBytes "X-HTTP2-Fingerprint")
+    (howns : ∀ j' ∈ c.injectors, Proxy.canonKey j'.name = Proxy.canonKey j.name → j'.out = j.out)
+    (v : Bytes) (hv : j.out = .value v) (hne : v.isEmpty = false) :
+    Proxy.get (Proxy.rewrite c i).hdr (strBytes "X-Http2-Fingerprint") = [v] := by
+  have hk : Proxy.canonKey j.name = strBytes "X-Http2-Fingerprint" := by rw [hn]; decide
+  have := Fp.C05.delivered c i j hj (by rw [hk]; decide) howns v hv hne
+  rwa [hk] at this
 
 end Fp.C03
